@@ -19,7 +19,7 @@ NEEDS = ["harness", "cli"]
 RULE = ("writer: shapes with 1-24 axes (mostly length 1, one or two longer with 1-5 digits) chosen so that len(header dict) covers all 64 residues "
         "mod 64, x value kinds incl. nan/inf/-0/subnormals, at L and via `view -O npy` (stdout and -o); reader: 10 dtypes x {<, >, |} x versions "
         "{1.0, 2.0, 3.0} written by numpy with boundary values (int min/max, f4 subnormal/max/inf/nan, u8 2^63..2^64-1), x 7 header spellings "
-        "(quotes, spacing, key order, trailing commas); rejects: Fortran order, dtypes c16 c8 ? f2 S5 U3 M8 m8 O V4. Non-trivial: every case; "
+        "(quotes, spacing, key order, trailing commas) and unaligned / over-padded headers (each first confirmed loadable by numpy); rejects: Fortran order, dtypes c16 c8 ? f2 S5 U3 M8 m8 O V4. Non-trivial: every case; "
         "distinct = digest(file bytes).")
 ASSUMPTIONS = ["numpy %s is the reference reader/writer" % np.__version__, "NEP-1 rules re-implemented from the spec text in vf/oracle/npyfmt.py"]
 FLOORS = {"quick": {"evaluations": 600, "distinct_nontrivial": 500, "counts": {"writer_files": 128, "reader_files": 300, "reject_files": 40}},
@@ -173,6 +173,13 @@ def check_reader(S, p):
                 d2 = npyfmt.build(npyfmt.spell(descr, False, shape, variant), payload, v)
                 reqs.append({"op": "read_npy", "data": d2.hex()})
                 meta.append((variant, dt, o, v, shape, expect, d2))
+            # alignment is only recommended: unaligned and over-padded headers are valid and numpy reads them
+            for name, kw in (("unaligned", {"align": 1}), ("over-padded", {"extra_pad": rng.choice([1, 7, 64, 200])})):
+                d3 = npyfmt.build(npyfmt.spell(descr, False, shape, "numpy"), payload, v, **kw)
+                chk = np.load(io.BytesIO(d3), allow_pickle=False)
+                if chk.tobytes() == typed.tobytes():
+                    reqs.append({"op": "read_npy", "data": d3.hex()})
+                    meta.append((name, dt, o, v, shape, expect, d3))
     for (variant, dt, o, v, shape, expect, data), r in zip(meta, harness.run_all(reqs)):
         S.count("reader_files")
         S.count("reader_%s" % ("numpy_written" if variant == "numpy" and False else variant))
